@@ -24,6 +24,23 @@ def zip_pairs(t):
             if b[0] == 'sub' and b[1] == a and b[2][0] == 'slice' and b[2][1] == ('const', 1) \
                     and b[2][2] == T.NONE and b[2][3] == T.NONE:
                 return a, t[2]
+    # the index form: for i in range(1, len(X)): X[i] ... X[i - 1]
+    if t[0] == 'sub' and len(t) == 3:
+        x, i = t[1], t[2]
+        off = 0
+        if i[0] == 'binop' and i[1] == 'Sub' and i[3] == ('const', 1):
+            i, off = i[2], 1
+        elif i[0] == 'binop' and i[1] == 'Add' and i[3] == ('const', 1):
+            i, off = i[2], -1
+        if i[0] == 'elem' and i[1][0] == 'call' and i[1][1] == 'range':
+            ra = i[1][2]
+            ln = T.mk(('call', 'len', (x,), ()))
+            if len(ra) == 2 and ra[0] == ('const', 1) and ra[1] == ln and off in (0, 1):
+                # X[i] is the later job (position 1 of a pair), X[i-1] the earlier one (position 0)
+                return x, 1 - off
+            if len(ra) == 1 and ra[0] == T.mk(('binop', 'Sub', ln, ('const', 1))) and off in (0, -1):
+                # for i in range(len(X) - 1): X[i + 1] ... X[i]
+                return x, 0 if off == 0 else 1
     return None
 
 
@@ -419,7 +436,9 @@ class KeepModel(GraphModel):
         return out
 
     def on_branch(self, ip, node, term, val, st, fr):
-        st = GraphModel.on_branch(self, ip, node, term, val, st, fr) or st
+        st = GraphModel.on_branch(self, ip, node, term, val, st, fr)
+        if st is None:
+            return None
         while term[:2] == ('unop', 'not'):
             term, val = term[2], not val
         if term == T.mk(('attr', T.SELF, 'jobs')) and fr.depth == 0:
